@@ -970,7 +970,7 @@ def _leg_check(ctx):
                            "# the contents oracle found no failing legacy store among %d\n%s\n" % (len(mism), len(terms), len(lines), line))
         viol.append(("correspondence: upgrade arithmetic differs from the model on %d of %d cases" % (len(mism), len(terms)), rp, False))
     return viol, {"evaluations": len(lines), "distinct_nontrivial": len(nontriv), "traces_validated_against_impl": len(terms) - len(mism),
-                  "correspondence_mismatches": len(mism), "oracle_failures": nbad, "cases_with_dangling_index_entries": sum(1 for r in recs if r.get("dangling_keys")),
+                  "correspondence_mismatches": len(mism), "oracle_failures": nbad, "cases_with_dangling_index_entries": sum(1 for _, rs in outs for r in rs if r.get("dangling_keys")),
                   "samples": [{"case": lines[-1]}], "coq_replay_s": round(coq_s, 1),
                   "case_rule": "a store written by the current code into single huge files (3-12 keys sharing bucket bits and prefixes, 5-45 puts/overwrites/removals/flushes) is re-packaged as a "
                                "version-2 single-file index, a bare single-file primary and a freelist with its pending entries; it is opened with new limits (index 1..2^20, primary 1..2^20 incl. limits that "
